@@ -119,8 +119,39 @@ def hooks():
         return None
 
 
-def fit_mt(cfg, h):
+def cond_bound(u, w):
+    """cheap forward bound on the rounding error of sum_{d,k} w_dk psi_dk with psi maintained by the recurrences: they subtract
+    quantities of size <= max_{d'<=d} C(N, d') * max(1, max u_k)^d, a few thousand ulps of which (1e-12: one per node visit)
+    may survive in psi_dk; it matters only when a community dies out and its w explodes"""
+    N, K = u.shape
+    tot = 0.0
+    for k in range(K):
+        umax = max(1.0, float(np.max(np.abs(u[:, k]))))
+        for d in range(2, w.shape[0] + 2):
+            tot += abs(float(w[d - 2, k])) * max(math.comb(N, j) for j in range(0, d + 1)) * umax ** d
+    return 1e-12 * tot
+
+
+def probe_class():
+    """HypergraphMT observed from inside fit(): every evaluation of the log-likelihood is recorded together with the
+    rounding bound of the parameters at that moment (the table itself has no access to them)"""
     from hypergraphx.communities.hypergraph_mt.model import HypergraphMT
+
+    class Probe(HypergraphMT):
+        def _LogLikelihood(self, *a, **k):
+            v = super()._LogLikelihood(*a, **k)
+            try:
+                self.verif_cond.append((float(v), cond_bound(np.asarray(self.u), np.asarray(self.w))))
+            except Exception:
+                pass
+            return v
+    return Probe
+
+
+def fit_mt(cfg, h, probe=False):
+    from hypergraphx.communities.hypergraph_mt.model import HypergraphMT
+    if probe:
+        HypergraphMT = probe_class()
     hk = hooks()
     if hk is not None:
         del hk.EVENTS[:]
@@ -128,6 +159,7 @@ def fit_mt(cfg, h):
     random.seed(cfg["seed"])
     m = HypergraphMT(verbose=False, n_realizations=cfg["n_realizations"], max_iter=cfg["max_iter"],
                      check_convergence_every=cfg["every"], min_value_par=cfg["min_value_par"])
+    m.verif_cond = []
     u, w, L = m.fit(h, K=cfg["K"], seed=cfg["seed"], normalizeU=cfg["normalizeU"], baseline_r0=cfg["baseline_r0"])
     ev = list(hk.EVENTS) if hk is not None else None
     return m, np.array(u), np.array(w), float(L), ev
@@ -168,7 +200,7 @@ def observe(cfg, idx):
     # ---- Hypergraph-MT
     with quiet():
         try:
-            m, u, w, L, ev = fit_mt(cfg, h)
+            m, u, w, L, ev = fit_mt(cfg, h, probe=True)
             m2, u2, w2, L2, _ = fit_mt(cfg, h)
         except Exception as ex:
             info["raised"].append(("HypergraphMT.fit", repr(ex)))
@@ -204,8 +236,21 @@ def observe(cfg, idx):
     if any(math.isnan(x) for x in vals):
         info["raised"].append(("HypergraphMT.fit", "NaN log-likelihood in train_info"))
         return hy, mt, None, info
-    tolr, exr = EM.ranks(vals)
-    code = dict(zip(vals, zip(tolr, exr)))
+    _, exr = EM.ranks(vals)
+    xcode = dict(zip(vals, exr))
+    # ascent is judged per realisation, with the rounding bound of the parameters each value was computed from
+    tl = [float(x) for x in ti["loglik"]]
+    cond = m.verif_cond if len(m.verif_cond) == len(tl) and all(a == b[0] for a, b in zip(tl, m.verif_cond)) else None
+    info["ascent_judged"] = cond is not None
+    tcode = [0] * len(tl)
+    if cond is not None:
+        reals = [int(a) for a in ti["realization"]]
+        for r in sorted(set(reals)):
+            ix = [j for j, a in enumerate(reals) if a == r]
+            tr_, _ = EM.ranks([tl[j] for j in ix], extra=[cond[j][1] for j in ix])
+            for j, c_ in zip(ix, tr_):
+                tcode[j] = c_
+        info["rounding_bounds"] = [c_[1] for c_ in cond]
     events, ends = [], {}
     if ev is not None:
         ends = {e["r"]: e for e in ev if e["kind"] == "mt_end"}
@@ -213,23 +258,23 @@ def observe(cfg, idx):
         table = [(int(a), int(b), float(c), bool(d)) for a, b, c, d in zip(ti["realization"], ti["iter"], ti["loglik"], ti["reached_convergence"])]
         info["hook_events_equal_table"] = steps == table
     cur = None
-    for a, b, c, d in zip(ti["realization"], ti["iter"], ti["loglik"], ti["reached_convergence"]):
+    for j, (a, b, c, d) in enumerate(zip(ti["realization"], ti["iter"], ti["loglik"], ti["reached_convergence"])):
         a, b, c, d = int(a), int(b), float(c), bool(d)
         if a != cur:
             if cur is not None:
-                events.append(end_event(cur, ends, code))
+                events.append(end_event(cur, ends, xcode))
             events.append({"ev": "start", "r": a})
             cur = a
-        events.append({"ev": "step", "r": a, "it": b, "obj": code[c][0], "objx": code[c][1], "conv": d})
+        events.append({"ev": "step", "r": a, "it": b, "obj": tcode[j], "objx": xcode[c], "conv": d})
     if cur is not None:
-        events.append(end_event(cur, ends, code))
-    ret = {"ev": "return", "maxx": code[L][1]}
+        events.append(end_event(cur, ends, xcode))
+    ret = {"ev": "return", "maxx": xcode[L]}
     if ends and len(ends) == cfg["n_realizations"]:
         ret["same"] = [bool(same_arrays(np.array(ends[r]["u"]), u) and same_arrays(np.array(ends[r]["w"]), w))
                        for r in range(cfg["n_realizations"])]
     events.append(ret)
     tr = {"cfg": {"nReal": cfg["n_realizations"], "maxIter": cfg["max_iter"], "every": cfg["every"],
-                  "ascent": not cfg["normalizeU"], "fixedU": False, "fixedW": False, "assortative": False}, "ev": events}
+                  "ascent": (not cfg["normalizeU"]) and cond is not None, "fixedU": False, "fixedW": False, "assortative": False}, "ev": events}
     info["train_info"] = [[int(a), int(b), float(c), bool(d)] for a, b, c, d in
                           zip(ti["realization"], ti["iter"], ti["loglik"], ti["reached_convergence"])]
     return hy, mt, tr, info
@@ -238,7 +283,7 @@ def observe(cfg, idx):
 def end_event(r, ends, code):
     e = {"ev": "end", "r": r}
     if r in ends:
-        e["objx"] = code[float(ends[r]["loglik"])][1]
+        e["objx"] = code[float(ends[r]["loglik"])]
         e["chosen"] = bool(ends[r]["chosen"])
     return e
 
@@ -293,6 +338,7 @@ def validate(res, tier, rng, only=None):
             output_cases=len(cases), output_validator_states=v1["states"], configurations=len(cfgs),
             fits=2 * len(cfgs), realisations=sum(c["n_realizations"] for c in cfgs),
             ascent_traces=sum(1 for tr in traces if tr["cfg"]["ascent"]),
+            ascent_not_judged_no_probe=sum(1 for i_ in infos if i_.get("ascent_judged") is False),
             loglik_definition_checked=sum(1 for c in cases if "lldef" in c),
             with_isolated_nodes=sum(1 for c in cfgs if c["N"] > len({n for e in c["edges"] for n in e})),
             hooks_installed=hooks() is not None)
@@ -311,8 +357,11 @@ def run(tier, seed):
         validate(res, tier, rng)
     res.coverage["phase_wall_s"] = {"explore": round(t1 - t0, 1), "fit_and_validate": round(time.time() - t1, 1)}
     res.assume(
-        "TLC has no reals: log-likelihood values enter TLC as integer ranks (exact rank for the bookkeeping of the maximum; tolerance rank, "
-        "neighbours closer than 1e-9*max(1,|L|) merged by single linkage, for ascent), matrices as flags decided in Python "
+        "TLC has no reals: log-likelihood values enter TLC as integer ranks (exact rank for the bookkeeping of the maximum; for ascent a tolerance "
+        "rank per realisation: neighbours closer than 1e-9*max(1,|L|) + the rounding bound of the parameters the value was computed from are "
+        "merged by single linkage; that bound, 1e-12 * sum_{d,k} w_dk max_{d'<=d} C(N,d') max(1,max u_k)^d, is read by a subclass that observes "
+        "_LogLikelihood during fit - when a community dies out w reaches 1e15 and the reported value wobbles by 1e-2 from rounding alone; such "
+        "steps are not judged; without the observer ascent is not judged at all and counted), matrices as flags decided in Python "
         "(finite, >= 0, zero row, |row sum - 1| <= 1e-6 + K*min_value_par) and integer entry codes for the HySC matrix",
         "the agreement of maxL with the definition (min_value_par = 0, check_convergence_every = 1) is computed in Python from the definition with "
         "brute-force elementary symmetric polynomials over all node subsets; tolerance 1e-8*max(1,|L|) plus the forward rounding bound "
